@@ -303,21 +303,34 @@ def _run_test(case):
         ts._asdict = traced
       while True:
         s.log('wbegin', ts)
-        state, ev = ts.asdict_with_event()
+        try:
+          state, ev = ts.asdict_with_event()
+        except (sched.Deadlock, sched.SchedulerStuck):
+          raise
+        except Exception as e:  # pylint: disable=broad-except
+          # a watcher is handed (state, event), not an exception because the phase ended while it was looking
+          res.setdefault('raised', []).append(type(e).__name__)
+          if len(res['raised']) > 5:
+            return
+          continue
         s.log('wend', ts, ev)
         res['handles'].setdefault(name, []).append(ev)
         res['last'][name] = state
-        if state.get('status') == 'COMPLETED':
+        if state.get('status') == 'COMPLETED' and not ev.is_set():
+          # (a set event means something changed after this snapshot was started - the snapshot may be torn: a
+          # snapshot-then-wait loop goes round again)
           return
         ev.wait()
     return watcher
 
   names = ['w%d' % i for i in range(case['nW'])]
+  from openhtf.core import test_state as _ts_mod
   out = sched_exec.run_case(case['test'], choose=_chooser(case), aux=[(n, mk_watcher(n)) for n in names],
-                            enable_logging=bool(case.get('logging', True)))
+                            enable_logging=bool(case.get('logging', True)),
+                            trace_lines=sched.codes_of(_ts_mod.TestState.as_base_types) if case.get('lines') else None)
   s = out['sched']
   ts = res['ts']
-  extras = []
+  extras = ['X:watcher-snapshot-raised:' + t for t in sorted(set(res.get('raised', [])))]
   if out['deadlock']:
     extras.append('X:deadlock:' + str(out['deadlock']).replace(' ', ''))
   elif out['stuck']:
@@ -644,6 +657,71 @@ def _run_plug_wait(case):
   return {'toks': [], 'n': 0, 'per': {}, 'final': None, 'extras': sorted(set(facts)), 'steps': s.step, 'live': True}
 
 
+def _snaprace_body(case, res):
+  """one watcher takes one snapshot of a TestState while the only phase ends; the source lines of
+  TestState.as_base_types are scheduling points"""
+  import openhtf as htf
+  from harness import sched_exec
+  from openhtf.core import test_state, phase_executor, phase_descriptor
+  sched_exec.install(False)
+
+  def body(s):
+    @htf.measures(htf.Measurement('m'))
+    def ph(test):
+      pass
+    test = htf.Test(ph)
+    ts = test_state.TestState(test.descriptor, 'verif-snaprace', test._test_options)
+    res['facts'] = []
+    try:
+      def watcher():
+        try:
+          state, ev = ts.asdict_with_event()
+          res['got'] = True
+        except (sched.Deadlock, sched.SchedulerStuck):
+          raise
+        except Exception as e:  # pylint: disable=broad-except
+          res['facts'].append('X:watcher-snapshot-raised:' + type(e).__name__)
+      ctx = ts.running_phase_context(test.descriptor.phase_sequence.nodes[0])
+      p = ctx.__enter__()
+      w = threading.Thread(target=watcher)
+      w._cosched_name = 'watcher'
+      w.start()
+      p.result = phase_executor.PhaseExecutionOutcome(phase_descriptor.PhaseResult.CONTINUE)
+      ctx.__exit__(None, None, None)
+      w.join()
+    finally:
+      ts.close()
+    return True
+  return body
+
+
+def _run_snaprace(case):
+  from openhtf.core import test_state
+  from harness import sched_exec
+  sched_exec.install(False)
+  res = {}
+  ex = sched.Explorer()
+  ex.prefix = list(case['choices'])
+  box, s = sched.run(ex.choose, _snaprace_body(case, res), max_steps=20000,
+                     trace_lines=sched.codes_of(test_state.TestState.as_base_types))
+  facts = list(res.get('facts') or [])
+  if s.deadlock or 'sched_error' in box:
+    facts.append('X:deadlock-or-stuck')
+  return {'toks': [], 'n': 0, 'per': {}, 'final': None, 'extras': sorted(set(facts)), 'steps': s.step, 'live': True}
+
+
+def _snaprace_cases(limit):
+  from openhtf.core import test_state
+  from harness import sched_exec
+  sched_exec.install(False)
+  out = []
+  res = {}
+  for box, s, choices in sched.explore(_snaprace_body({}, res), preemption_bound=2, limit=limit, max_steps=20000,
+                                       trace_lines=sched.codes_of(test_state.TestState.as_base_types)):
+    out.append({'kind': 'snaprace', 'choices': choices})
+  return out
+
+
 def _run_live(case):
   """a snapshot-then-wait watcher on a RUNNING phase: after the phase's last assignment (and its notification) the
   watcher is given the time to wake up and take its snapshot; that snapshot must show the values the measurements now
@@ -728,6 +806,8 @@ def run_real(case):
     return _run_plug_timeout(case)
   if k == 'plugwait':
     return _run_plug_wait(case)
+  if k == 'snaprace':
+    return _run_snaprace(case)
   if k == 'bare':
     return _run_bare(case)
   if k == 'test':
@@ -759,7 +839,7 @@ def classify(case, o):
 def nontrivial_key(case, o):
   if case['kind'] == 'notify':
     return None if not o['obs'] else json.dumps(case, sort_keys=True)
-  if case['kind'] in ('live', 'plugto', 'plugwait'):
+  if case['kind'] in ('live', 'plugto', 'plugwait', 'snaprace'):
     return json.dumps(case, sort_keys=True)
   return ' '.join(o['toks']) + '|' + case['kind'] + str(case.get('wmode')) if (o['toks'] or case['kind'] == 'plug') else None
 
@@ -813,12 +893,13 @@ def gen_cases(rng, tier):
       t = g.case(depth=r.choice([1, 2]), width=r.choice([1, 2, 3]))
       t.pop('start', None)
     cases.append({'kind': 'test', 'test': t, 'nW': r.choice([1, 2]), 'rseed': r.getrandbits(32),
-                  'switch': r.choice([0.1, 0.3, 0.6]), 'logging': i % 2 == 0})
+                  'switch': r.choice([0.1, 0.3, 0.6]), 'logging': i % 2 == 0, 'lines': i % 2 == 1})
   for i in range(80 if quick else 3000):
     r = rng.derive('l%d' % i)
     cases.append({'kind': 'live', 'nmeas': r.choice([2, 3]), 'ops': [[r.randrange(3), r.choice([1, 5, 7])] for _ in range(r.choice([2, 3, 4]))],
                   'rseed': r.getrandbits(32), 'pct': r.choice([0, 2, 3, 3]), 'horizon': r.choice([200, 500]),
                   'switch': r.choice([0.2, 0.5])})
+  cases += _snaprace_cases(400 if quick else 4000)
   for i in range(12 if quick else 300):
     r = rng.derive('pt%d' % i)
     cases.append({'kind': 'plugto', 'prompts': r.choice([1, 2]), 'rseed': r.getrandbits(32)})
